@@ -16,8 +16,8 @@ NA = {
  "C07": "pure function of the message (digest of an in-memory/streamed byte string): no schedule, clock, fault or interleaving to simulate; the file-buffer refill path is exercised through C08",
  "C09": "pure function of (key, block); nothing for a simulator to schedule or fault",
  "C10": "sequential in-memory mode objects with a single caller; no nondeterminism to control (counter carries are still forced through the real pipeline in C02)",
- "C16": "pure functions of strings (base64 codec, key validator)",
- "C17": "function of the argument vector; its defects are input-triggered, its thread/I-O behaviour is decided under C01-C04 and repeated parsing under C15",
+ "C16": "pure functions of strings (base64 codec, key validator): no schedule, clock, fault or interleaving to simulate; the path from a -k string to the key the pipeline uses is still exercised end to end by the command-line scenarios of C02 (file equals the format for the RFC 4648 decoding of the string) and C06 (all 128 neighbour strings rejected)",
+ "C17": "function of the argument vector; its defects are input-triggered, its thread/I-O behaviour is decided under C01-C04, repeated parsing under C15, and the option spellings that reach the kernel (order, = form, defaults, clusters) under C02's command-line scenario",
 }
 def main():
     extra = json.load(open(os.path.join(V, "manifest_extra.json"))) if os.path.exists(os.path.join(V, "manifest_extra.json")) else {}
